@@ -47,6 +47,23 @@ fn behaviour(stage: &str, b: &str) -> Stage {
         "channel1-method" => Stage::Frames(vec![AMQPFrame::Method(1, AMQPClass::Channel(pchannel::AMQPMethod::OpenOk(pchannel::OpenOk { channel_id: String::new() })))], false),
         "header" => Stage::Frames(vec![AMQPFrame::Header(0, 60, Box::new(AMQPContentHeader { class_id: 60, weight: 0, body_size: 0, properties: Default::default() }))], false),
         "body" => Stage::Frames(vec![AMQPFrame::Body(0, vec![1, 2, 3])], false),
+        // the right method for the stage (or a Close / Secure), but not on channel 0
+        "wrong-channel" | "close-wrong-channel" | "secure-wrong-channel" => {
+            let f = match b {
+                "wrong-channel" => normal(stage),
+                "close-wrong-channel" => conn_close_frame(530, "NOT_ALLOWED - vhost"),
+                _ => secure_frame(),
+            };
+            let ch = match stage {
+                "start" => 1,
+                "startok" => 3,
+                _ => 65535,
+            };
+            match f {
+                AMQPFrame::Method(_, m) => Stage::Frames(vec![AMQPFrame::Method(ch, m)], false),
+                other => Stage::Frames(vec![other], false),
+            }
+        }
         "eof" => Stage::Eof,
         "malformed" => Stage::Raw(vec![1, 0, 0, 0, 0, 0, 4, 0xFF, 0xFF, 0, 0, 0xCD]),
         "silent" => Stage::Silent,
@@ -79,7 +96,7 @@ fn expected(stage: &str, b: &str, timeout: bool, external: bool) -> Vec<&'static
                 vec!["Err(FrameUnexpected)"]
             }
         }
-        "start" | "tune" | "openok" | "channel1-method" | "header" | "body" => vec!["Err(FrameUnexpected)"],
+        "start" | "tune" | "openok" | "channel1-method" | "header" | "body" | "wrong-channel" | "close-wrong-channel" | "secure-wrong-channel" => vec!["Err(FrameUnexpected)"],
         "eof" => {
             if after_start_ok {
                 vec!["Err(InvalidCredentials)"]
@@ -122,7 +139,7 @@ impl Scenario for Hs {
     }
     fn variants(&self, tier: &str) -> Vec<Value> {
         let mut v = Vec::new();
-        let common = ["normal", "secure", "close", "start", "tune", "openok", "heartbeat-then-normal", "channel1-method", "header", "body", "eof", "malformed", "silent"];
+        let common = ["normal", "secure", "close", "start", "tune", "openok", "heartbeat-then-normal", "channel1-method", "header", "body", "eof", "malformed", "silent", "wrong-channel", "close-wrong-channel", "secure-wrong-channel"];
         for stage in ["start", "startok", "open"] {
             for b in common {
                 // the frame that is right for this stage is not a deviation
